@@ -176,7 +176,11 @@ func (c *checker) checkC01() {
 			case "iter", "riter":
 				want := expectedScan(c.truth, r.Own, r.Op, h.StartTS)
 				if !eqPairs(r.Pairs, want) {
-					c.fail(P, "scan-mismatch", fmt.Sprintf("txn%d.op%d", id, i), "txn %d (start %d) op %d %s[%q,%q) = %v, expected %v", id, h.StartTS, i, r.Op.Kind, r.Op.Lo, r.Op.Hi, r.Pairs, want)
+					sig := fmt.Sprintf("txn%d.op%d", id, i)
+					if r.Op.Kind == "riter" && r.Op.Hi == "" {
+						sig = "riter-unbounded-upper " + sig
+					}
+					c.fail(P, "scan-mismatch", sig, "txn %d (start %d) op %d %s[%q,%q) = %v, expected %v", id, h.StartTS, i, r.Op.Kind, r.Op.Lo, r.Op.Hi, r.Pairs, want)
 				}
 			case "lock":
 				// (e) locking read returns the newest committed value at the lock's for-update ts
@@ -198,12 +202,18 @@ func (c *checker) checkC01() {
 		}
 		// (f) insert
 		if o.committed {
-			for k := range h.Inserted {
+			for k := range h.InsertChecked {
 				if _, wrote := o.keys[k]; !wrote && h.Buf[k] != nil {
 					continue
 				}
-				if v, ok := c.truth[k].ValueAt(o.commitTS - 1); ok {
-					c.fail(P, "insert-over-existing", fmt.Sprintf("txn%d", id), "txn %d committed at %d with an insert on %q although the key had value %q at its commit point (truth: %s)", id, o.commitTS, k, v, describeKey(c.truth[k]))
+				at, what := o.commitTS-1, "its commit point"
+				if !h.Prog.Pessimistic && h.Buf[k] == nil {
+					// optimistic insert-then-delete is a NON-locking existence check executed at
+					// prewrite: the protocol guarantees absence in the transaction's snapshot only.
+					at, what = h.StartTS, "its start ts"
+				}
+				if v, ok := c.truth[k].ValueAt(at); ok {
+					c.fail(P, "insert-over-existing", fmt.Sprintf("txn%d", id), "txn %d committed at %d with an insert on %q although the key had value %q at %s (truth: %s)", id, o.commitTS, k, v, what, describeKey(c.truth[k]))
 				}
 			}
 		}
